@@ -210,9 +210,24 @@ class Executor:
         if fr.closure is not None and name in fr.closure:
             return fr.closure[name]
         mod = fr.module
-        return self.module_name(mod, name)
+        return self.module_name(mod, name, st)
 
-    def module_name(self, mod: extract.Module, name: str) -> SV:
+    def module_instance(self, mod: extract.Module, name: str, st):
+        """`NAME = Class(...)` at module level, Class a repository class: one object shared by every call and every thread.  It exists before the function under
+        check runs (allocated in the entry heap), and nothing is known about its fields: whatever invariant a callee needs of it has to be proved from that."""
+        for n in mod.tree.body:
+            if isinstance(n, ast.Assign) and len(n.targets) == 1 and isinstance(n.targets[0], ast.Name) and n.targets[0].id == name \
+                    and isinstance(n.value, ast.Call) and isinstance(n.value.func, ast.Name) and n.value.func.id in mod.classes and any(k.startswith(n.value.func.id + '.') for k in self.w.schema.fields):
+                r = SV(REF(n.value.func.id), z3.Int(f"global!{mod.modname}.{name}"))
+                if st is not None:
+                    st.assume(r.v > 0, self.alloc_sel(st.heap, r.v))
+                    mine = tuple(st.ghost.get("$my_allocs", ()))
+                    if mine:
+                        st.assume(*[r.v != x for x in mine])
+                return r
+        return None
+
+    def module_name(self, mod: extract.Module, name: str, st=None) -> SV:
         if name in mod.consts and not isinstance(mod.consts[name], (dict,)) and not (isinstance(mod.consts[name], tuple) and mod.consts[name] and mod.consts[name][0] in ("alias", "name")):
             return self.lit(mod.consts[name])
         hook = self.w.attr_hooks.get(("module:" + mod.modname, name))
@@ -256,6 +271,9 @@ class Executor:
                         return SV(FUNCT, ModuleD(al.name if al.asname else al.name.split(".")[0]))
         if hasattr(_pybuiltins, name):
             return SV(FUNCT, ExternD("builtins." + name))
+        inst = self.module_instance(mod, name, st)
+        if inst is not None:
+            return inst
         raise Unsupported(f"unresolved name {name!r} in {mod.modname}:{self.frame.qualname}")
 
     def lit(self, v) -> SV:
